@@ -44,21 +44,21 @@ Qed.
 Theorem InvE_step : forall s lb s', InvE s -> lstep s lb = Some s' -> InvE s'.
 Proof.
   intros s lb s' I H. constructor.
-  - eapply (step_phase N parent Htree); eauto.
-  - eapply (step_g1 N parent Htree); eauto.
-  - eapply (step_g2 N parent Htree); eauto.
-  - eapply (step_s1 N parent Htree); eauto.
-  - eapply (step_a1 N parent Htree); eauto.
-  - eapply (step_a2 N parent Htree); eauto.
-  - eapply (step_w1 N parent Htree); eauto.
-  - eapply (step_w2 N parent Htree); eauto.
-  - eapply (step_w3 N parent Htree); eauto.
-  - eapply (step_fwd N parent Htree); eauto.
-  - eapply (step_snd N parent Htree); eauto.
-  - eapply (step_pcs N parent Htree); eauto.
-  - eapply (step_sc N parent Htree); eauto.
-  - eapply (step_j2 N parent Htree); eauto.
-  - eapply (step_j3 N parent Htree); eauto.
+  - first [eapply (step_phase N parent Htree); eauto | eapply (step_phase N parent); eauto].
+  - first [eapply (step_g1 N parent Htree); eauto | eapply (step_g1 N parent); eauto].
+  - first [eapply (step_g2 N parent Htree); eauto | eapply (step_g2 N parent); eauto].
+  - first [eapply (step_s1 N parent Htree); eauto | eapply (step_s1 N parent); eauto].
+  - first [eapply (step_a1 N parent Htree); eauto | eapply (step_a1 N parent); eauto].
+  - first [eapply (step_a2 N parent Htree); eauto | eapply (step_a2 N parent); eauto].
+  - first [eapply (step_w1 N parent Htree); eauto | eapply (step_w1 N parent); eauto].
+  - first [eapply (step_w2 N parent Htree); eauto | eapply (step_w2 N parent); eauto].
+  - first [eapply (step_w3 N parent Htree); eauto | eapply (step_w3 N parent); eauto].
+  - first [eapply (step_fwd N parent Htree); eauto | eapply (step_fwd N parent); eauto].
+  - first [eapply (step_snd N parent Htree); eauto | eapply (step_snd N parent); eauto].
+  - first [eapply (step_pcs N parent Htree); eauto | eapply (step_pcs N parent); eauto].
+  - first [eapply (step_sc N parent Htree); eauto | eapply (step_sc N parent); eauto].
+  - first [eapply (step_j2 N parent Htree); eauto | eapply (step_j2 N parent); eauto].
+  - first [eapply (step_j3 N parent Htree); eauto | eapply (step_j3 N parent); eauto].
 Qed.
 
 
